@@ -88,7 +88,26 @@ func opt(n *ast.Node) *T {
 	return fromNode(n)
 }
 
+// safeStartPos evaluates the derived start position of a node; a panic
+// inside it is reported as offset -2.
+func safeStartPos(n *ast.Node) (p token.LnColPos) {
+	defer func() {
+		if recover() != nil {
+			p = token.LnColPos{Pos: -2, Ln: -2, Col: -2}
+		}
+	}()
+	return ast.NodeStartPos(n)
+}
+
 func fromNode(n *ast.Node) *T {
+	t := fromNode1(n)
+	if t != nil {
+		t.pos("@StartPos", safeStartPos(n))
+	}
+	return t
+}
+
+func fromNode1(n *ast.Node) *T {
 	switch n.NodeType {
 	case ast.TypeIdentifier:
 		e := n.Identifier()
